@@ -132,7 +132,13 @@ def rule_g(ctx):
     c10.rule_d(ctx)
     c07.rule_b(ctx)
 
+def rule_h(ctx):
+    """a blocked sender / an idle receiver is always woken when its condition becomes true (C12.b)"""
+    from . import c12
+    c12.rule_b(ctx)
+
 RULES = [
+    ("C03.h", "wake-up pairing of the mailbox (a message waiting for space is eventually enqueued)", rule_h),
     ("C03.g", "scheduler-originated events: every due action is pulled through the helper and executed once", rule_g),
     ("C03.a", "a message closure is consumed at most once and never dropped on Full", rule_a),
     ("C03.b", "every Sender implementation sends exactly once (or not at all iff filtered)", rule_b),
